@@ -1,2 +1,75 @@
 import ShuttleModel
-def main : IO Unit := IO.println "shuttle_model"
+/-
+  `shuttle_model` — line-protocol driver for the executable model.
+    shuttle_model codec <cases.txt>            C16 wire format (same protocol as `vh codec`)
+    shuttle_model selftest                     RNG / SipHash test vectors
+-/
+open ShuttleModel
+
+def pctDecode (s : String) : String :=
+  let rec go (cs : List Char) (acc : ByteArray) (fuel : Nat) : ByteArray :=
+    match fuel with
+    | 0 => acc
+    | fuel + 1 =>
+      match cs with
+      | [] => acc
+      | '%' :: a :: b :: rest =>
+        match hexVal a, hexVal b with
+        | some x, some y => go rest (acc.push (UInt8.ofNat (x * 16 + y))) fuel
+        | _, _ => go (a :: b :: rest) (acc.push 37) fuel
+      | c :: rest => go rest (c.toString.toUTF8.foldl (fun a b => a.push b) acc) fuel
+  let bytes := go s.toList ByteArray.empty (s.length + 1)
+  match String.fromUTF8? bytes with
+  | some str => str
+  | none => "�"
+
+def parseSteps (s : String) : Option (List ScheduleStep) :=
+  if s == "-" || s == "" then some []
+  else (s.splitOn ",").mapM fun t =>
+    if t == "r" then some ScheduleStep.random
+    else match t.toList with
+      | 't' :: ds => (String.ofList ds).toNat?.map ScheduleStep.task
+      | _ => none
+
+def stepsToString (steps : List ScheduleStep) : String :=
+  if steps.isEmpty then "-"
+  else ",".intercalate (steps.map fun st => match st with
+    | .task t => s!"t{t}"
+    | .random => "r")
+
+def codecLine (line : String) : String :=
+  match line.splitOn " " with
+  | ["ser", seed, steps] =>
+    match seed.toNat?, parseSteps steps with
+    | some sd, some st => "ok " ++ (serializeSchedule { seed := sd, steps := st }).replace "\n" "|"
+    | _, _ => "bad-line"
+  | ["ser", seed] =>
+    match seed.toNat? with
+    | some sd => "ok " ++ (serializeSchedule { seed := sd, steps := [] }).replace "\n" "|"
+    | none => "bad-line"
+  | "de" :: rest =>
+    let arg := match rest with | [] => "" | a :: _ => a
+    match deserializeSchedule (pctDecode arg) with
+    | some sch => s!"some {sch.seed} {stepsToString sch.steps}"
+    | none => "none"
+  | [""] => ""
+  | _ => "bad-line"
+
+def main (args : List String) : IO UInt32 := do
+  match args with
+  | ["codec", file] =>
+    let text ← IO.FS.readFile file
+    let out ← IO.getStdout
+    let lines := text.splitOn "\n"
+    -- `lines()` in Rust drops a trailing empty line
+    let lines := if lines.getLast? == some "" then lines.dropLast else lines
+    for l in lines do
+      out.putStrLn (codecLine l)
+    return 0
+  | ["selftest"] =>
+    let ok := Rng.Vectors.rngSelfTest
+    IO.println s!"rngSelfTest {ok}"
+    return (if ok then 0 else 1)
+  | _ =>
+    IO.eprintln "usage: shuttle_model codec <file> | selftest"
+    return 2
